@@ -88,6 +88,11 @@ def _mk():
     add("sl2_e", "{0}[..., 1:]", cond=D2, fam="slice")
     add("tk_201", "{0}[[2, 0, 1]]", cond="a0.ndim>=1 and a0.shape[0]>=3", fam="take")
     add("tk_2302", "{0}[[2, 3, 0, 2]]", cond="a0.ndim>=1 and a0.shape[0]>=4", fam="take")
+    # Array.shuffle with grouped indexers (groups larger than one element); the
+    # second op shares one module-level indexer list across all builds
+    add("shuffle_groups", "{0}.shuffle([[2, 0, 1], [4, 3], [5]], axis=0)", "{0}[[2, 0, 1, 4, 3, 5]]", cond="a0.ndim>=1 and a0.shape[0]==6", fam="take")
+    add("shuffle_shared_idx", "{0}.shuffle(uf.IDX6, axis=0)", "{0}[[1, 0, 2, 3, 5, 4]]", cond="a0.ndim>=1 and a0.shape[0]==6", fam="take")
+    add("shuffle_groups3", "{0}.shuffle([[2, 0], [1]], axis=0)", "{0}[[2, 0, 1]]", cond="a0.ndim>=1 and a0.shape[0]==3", fam="take")
     add("tk_00", "{0}[[0, 0]]", cond=NE, fam="take")
     add("tk_m1_0", "{0}[[-1, 0]]", cond=NE, fam="take")
     add("tk2_ax1", "{0}[:, [1, 0]]", cond="a0.ndim>=2 and a0.shape[1]>=2", fam="take")
@@ -272,6 +277,8 @@ def _mk():
     for _k in (1, 2, 3, 4):
         add(f"plus_np_len{_k}", f"{{0}} + np.arange({_k}.0) * 100", cond=f"a0.ndim==1 and a0.shape[0]=={_k}", fam="elemwise", rewrite=False)
         add(f"plus_da_len{_k}", f"{{0}} + {{m}}.asarray(np.arange({_k}.0) * 100)", cond=f"a0.ndim==1 and a0.shape[0]=={_k}", fam="elemwise", rewrite=False)
+    add("cat_known", "{m}.concatenate([{0}, {m}.asarray(np.arange(3.0) + 500)])", cond="a0.ndim==1", fam="stack", rewrite=False)
+    add("cat_known_first", "{m}.concatenate([{m}.asarray(np.arange(3.0) + 500), {0}])", cond="a0.ndim==1", fam="stack", rewrite=False)
     add("isin", "{m}.isin({0}, [11, 13, 15])", fam="routine", rewrite=False)
     add("round", "{m}.round({0} / 3, 1)", exact=False, fam="routine", rewrite=False)
     add("tril", "{m}.tril({0})", cond=D2, fam="routine", rewrite=False)
